@@ -5,6 +5,7 @@ from ..index import AnalysisError, attr_chain, norm, own_nodes
 from ..query import calls_in, call_name, is_value_yield, lines, falsy_edges, assigns
 from ..flow import reaching_defs
 from ..condeval import check_cond
+from .common import borrowed
 from .common import (TLSCONN, TLSREC, nodes_with_call, consumes_of, getmsg_nodes, dead_edge_labels,
                      effective_tests, must_pass, senderror_desc, rule_consume)
 from . import c20
@@ -373,4 +374,5 @@ RULES = [
     ("C06.RENEG", "quick", rule_reneg),
     ("C06.SUITE", "quick", rule_suite_messages),
     ("C06.CONSUME", "quick", rule_consume_c06),
+    ("C06.AUTH13", "quick", borrowed("c05", "rule_auth13", "C05.", "C06.")),
 ]
